@@ -144,6 +144,22 @@ pub fn run(ctx: &Ctx) -> Outcome {
                     break;
                 }
             }
+            if i % 8 == 0 {
+                // polyglot process: the same text and threshold rewritten through the runtime-selectable value of every
+                // other language first, then of this one: must be what the concrete type (judged above) returns
+                let t = TEXT_THRESHOLDS[(i / 8 % TEXT_THRESHOLDS.len() as u64) as usize];
+                let li = ls.idx(code);
+                for (j, f) in ls.facades.iter().enumerate() {
+                    if j != li {
+                        std::hint::black_box(f.replace(&s, t).len());
+                    }
+                }
+                let (rf, rc) = (ls.facades[li].replace(&s, t), ls.api(code).replace(&s, t));
+                rep.count("polyglot_rewrites_compared");
+                if rf != rc {
+                    rep.violation(&format!("{}:polyglot", code), jobj! {"kind" => "polyglot", "lang" => code, "text" => s.as_str(), "threshold" => format!("{}", t)}, format!("[{} t={}] after the same text went through the other languages' runtime-selectable values, replace_numbers_in_text({:?}) through Language gives {:?} but the concrete type gives {:?}", code, t, s, rf, rc));
+                }
+            }
             rep.eval(hash_bytes(&[code.as_bytes(), s.as_bytes()]), true);
             if max_occ >= 2 {
                 rep.count("texts_with_2_or_more_numbers");
@@ -206,6 +222,20 @@ pub fn replay(case: &J) -> Vec<String> {
         "no-number" => {
             for &t in TEXT_THRESHOLDS.iter() {
                 out.extend(check_no_number(&ls, &code, &case.str_of("text"), t));
+            }
+        }
+        "polyglot" => {
+            let s = case.str_of("text");
+            let t: f64 = case.str_of("threshold").parse().unwrap_or(0.0);
+            let li = ls.idx(&code);
+            for (j, f) in ls.facades.iter().enumerate() {
+                if j != li {
+                    std::hint::black_box(f.replace(&s, t).len());
+                }
+            }
+            let (rf, rc) = (ls.facades[li].replace(&s, t), ls.api(&code).replace(&s, t));
+            if rf != rc {
+                out.push(format!("after the other languages' runtime-selectable values: Language gives {:?}, the concrete type {:?}", rf, rc));
             }
         }
         _ => {
